@@ -5,8 +5,7 @@
 // values, iter, contains_key, get and to_json describe the same entries".
 // OUT OF SCOPE (said so on purpose): the array / text half of C17 -- there `len()` is the cached counter `Branch::block_len` /
 // `content_len` maintained by integration and deletion, so its agreement with the content is an invariant of the integration
-// code, not a property of the readers.  Also not here: `Map::get_as` (serde on top of `Branch::get`), `as_prelim`, XML
-// attributes (`get_attribute` IS `Branch::get`; `Attributes::next` has the shape of `MapIter::next` over the same `Entries`).
+// code, not a property of the readers.
 //
 // THE PROPERTY, on views.  For a map-like branch every reader is a pure function of `branch.map: HashMap<Arc<str>, ItemPtr>`
 // and, per entry item, of its tombstone flag and its content.  So agreement is proved for EVERY value of `branch.map`; no
@@ -27,6 +26,14 @@
 //                      live pair THAT HAS a last value (valueless live items are skipped by recursion).
 //     Keys::new / Values::new / MapIter::new / Entries::new / from_ref / Map::{keys, values, iter}: the iterator starts on an
 //                      enumeration of `branch.map` (vstd's HashMap::iter contract: every (key, value) pair exactly once).
+//     get_as(k)        == deserialize(json(get(k)'s value, or Out::Any(Any::Null) if get(k) is None))   [whole function; `from_any` /
+//                      DeserializeOwned abstract; so a get_as that reads a tombstone or another key fails a contract clause]
+//     get_or_init_read_step (STEP): the read side of `Map::get_or_init` finds exactly get(k) (converted with the abstract
+//                      TryFrom<Out>); remove_read_step (STEP): the value `Branch::remove` (Map::remove, remove_attribute) REPORTS
+//                      is exactly what get(k) returned; Branch::entries: an `Entries` on an enumeration of `branch.map`.
+//     XML ATTRIBUTES (xml.rs, trait `Xml`, implementors XmlElementRef / XmlTextRef): get_attribute(k) == entries(m).get(k) (it IS
+//                      Branch::get); attributes() / Attributes::new start on an enumeration of `branch.map`; Attributes::next has
+//                      the SAME contract as MapIter::next.  `theorem_derived_readers_agree` ties these to get / iter.
 //     len_step / to_json_step (STEP level, additional): the bodies of the two `for` loops lifted on their own (R18), so that an
 //                      edit of a body fails a contract clause of real code, not only the invariant spliced into the loop.
 //   The default methods of `trait Map` are shared by its two implementors `MapRef` and `XmlHookRef` (both `AsRef<Branch>`).
@@ -81,9 +88,12 @@
 //                `Item::{is_deleted, len}`, `ItemFlags::{check, is_deleted}`, `ITEM_FLAG_DELETED` are the real ones.
 //   Branch       sliced to `map`.  DROPPED: start, item, name, block_len, content_len, type_ref, has_formatting, observers,
 //                deep_observers.
-//   ItemContent  ABSTRACTION `struct ItemContent { elems: Vec<Out>, last: Option<Out> }`: `get_last()` returns `last`,
-//                `read(offset, buf)` copies `elems[offset..]` into `buf` (as far as both reach) and returns the count.  NO relation
-//                between the two is built in (real, per kind: Any / JSON: elems = the vector, last = its last element; Binary /
+//   ItemContent  `enum ItemContent { Any(Vec<Any>), Other(OtherContent) }`: the REAL variant `Any` (so that code matching on
+//                `ItemContent::Any(values)` -- e.g. a "fast path" for primitives -- is ingestible; get_last = Out::Any(last element),
+//                read = the elements wrapped in Out::Any) + the ABSTRACTION `OtherContent { elems: Vec<Out>, last: Option<Out> }` of
+//                the other eight variants: `get_last()` returns `last`, `read(offset, buf)` copies `elems[offset..]` into `buf` (as
+//                far as both reach) and returns the count; specs read them through `last_spec()` / `elems_spec()`.  NO relation
+//                between the two is built in for `Other` (real, per kind: Any / JSON: elems = the vector, last = its last element; Binary /
 //                Doc / Embed / Type: elems = [v], last = Some(v); Deleted / Format: elems = [], last = None; String: elems = the
 //                chars, last = Some(the whole string)); `seq_kind` / `single_value` / `item_len_ok` name the relations.
 //                `buf: &mut [Out]` is spelled `&mut Vec<Out>` (`&mut values` of a `Vec<Out>` fits both).
@@ -109,6 +119,21 @@
 // TRUSTED: `axiom_str_key_model` (A4: Str is a lawful HashMap key); `vx_unreachable` (vx/prelude.rs, R9: `panic!` = an
 //   obligation).  vstd's own specifications of HashMap::{new, get, insert, iter}, hash_map::Iter::next (prophetic iterator
 //   model: `remaining()`), Option::{unwrap_or, ?}, `vec![x; n]`, Vec index / index-assign.  No assume / admit.
+//
+// SURVEY of the other code that reads `branch.map` (2026-09-26) and why it is not here:
+//   * `Map::try_update` (read side): compares the last element of an `ItemContent::Any` entry with the new value -- needs exec
+//     equality on `Any` (the stand-in holds a ghost map); it tests `!item.is_deleted()` itself.  `Map::link` (feature "weak"):
+//     builds a WeakPrelim from `ptr.map.get(key)` WITHOUT a tombstone test (it quotes the key's current block, a link, not a value).
+//   * `MapRef::as_prelim` (`Out::try_from(ptr)` == get_last, guarded by `!ptr.is_deleted()`; builds `In` values): a conversion,
+//     out of scope as MapPrelim / From are.  `XmlElementRef::get_string`: iterates `Attributes(inner.entries(txn))` (both under
+//     contract) inside string formatting (`write!`), not ingestible.  Display / Debug of Branch and BranchPtr print `map` raw
+//     (tombstones included; debugging output).  `Store::get_type_from_path` (no caller in the crate) follows `map.get(key)` without
+//     a tombstone test and matches on `ItemContent::Type`.
+//   * TextRef / XmlTextRef formatting attributes are Format ITEMS of the text sequence, not entries of `branch.map` (the XML
+//     attributes of an XmlTextRef are: trait `Xml`, covered).  event_keys (C11, unit events), integration / conflict resolution /
+//     delete recursion (`block.rs`, `transaction.rs`) read `map` as WRITERS' bookkeeping.
+//   * a rewrite of a reader that matches on `ItemContent::Type` / `Doc` / `Binary` .. (e.g. seeded/C17a-2, a to_json fast path)
+//     is outside the abstract view (`Other`): the unit is then UNDECIDED (type error), not a verdict.
 //
 // NOT INGESTIBLE: `MapIntoIter` as a whole -- `std::collections::hash_map::IntoIter` has no vstd specification (and
 //   `map.map.clone().into_iter()` is a consuming iterator).  The statement after `let (key, item) = self.entries.next()?;`
@@ -143,6 +168,13 @@ use vx_base::vx_unreachable;
 pub struct Str(pub u64);
 
 impl Str {
+    /// `AsRef<str> for str`
+    pub fn as_ref(&self) -> (r: &Str)
+        ensures *r == *self,
+    {
+        self
+    }
+
     /// `ToString for str` (through `Arc<str>: Deref<Target = str>`): the same characters
     pub fn to_string(&self) -> (r: Str)
         ensures r == *self,
@@ -185,6 +217,48 @@ impl Any {
 }
 
 pub trait ReadTxn {}
+
+/// stand-in for `crate::encoding::read::Error` (what `from_any` fails with): opaque
+pub struct Error(pub u64);
+
+/// `serde::de::DeserializeOwned` as far as `Map::get_as` uses it: ABSTRACT -- the deserialization of a JSON value into `Self` is
+/// the uninterpreted `from_any_spec` (bodiless trait method)
+pub trait DeserializeOwned: Sized {
+    spec fn from_any_spec(a: Any) -> Result<Self, Error>;
+
+    fn vx_from_any(a: &Any) -> (r: Result<Self, Error>)
+        ensures
+            r == Self::from_any_spec(*a),
+    ;
+}
+
+/// `crate::encoding::serde::from_any` (real: builds an AnyDeserializer and calls `T::deserialize`)
+pub fn from_any<V: DeserializeOwned>(any: &Any) -> (r: Result<V, Error>)
+    ensures
+        r == V::from_any_spec(*any),
+{
+    V::vx_from_any(any)
+}
+
+/// `TryFrom<Out>` as far as `Map::get_or_init` uses it: ABSTRACT conversion of a value into a shared-type reference
+pub trait TryFromOut: Sized {
+    spec fn try_from_spec(o: Out) -> Result<Self, Out>;
+
+    fn vx_try_from(o: Out) -> (r: Result<Self, Out>)
+        ensures
+            r == Self::try_from_spec(o),
+    ;
+}
+
+impl Out {
+    /// `TryInto::try_into` (blanket impl over `TryFrom<Out>`)
+    pub fn try_into<V: TryFromOut>(self) -> (r: Result<V, Out>)
+        ensures
+            r == V::try_from_spec(self),
+    {
+        V::vx_try_from(self)
+    }
+}
 
 pub mod vx_out {
     use vstd::prelude::*;
@@ -253,44 +327,96 @@ impl ItemFlags {
     @*/
 }
 
-/// ABSTRACTION of `ItemContent`, see the table at the top
-pub struct ItemContent {
+/// ABSTRACTION of the eight variants of `ItemContent` other than `Any` (Binary, Deleted, Doc, JSON, Embed, Format, String,
+/// Type), see the table at the top
+pub struct OtherContent {
     pub elems: Vec<Out>,
     pub last: Option<Out>,
 }
 
+/// `ItemContent`: the real variant `Any(Vec<Any>)` (what `Map::insert` of a primitive creates; code that looks into the content
+/// of an entry matches on it) + the abstraction of the other variants
+pub enum ItemContent {
+    Any(Vec<Any>),
+    Other(OtherContent),
+}
+
 impl ItemContent {
-    /// `ItemContent::get_last`
+    /// what `get_last` returns
+    pub open spec fn last_spec(&self) -> Option<Out> {
+        match self {
+            ItemContent::Any(v) => if v@.len() > 0 { Some(Out::Any(v@.last())) } else { None },
+            ItemContent::Other(o) => o.last,
+        }
+    }
+
+    /// the elements `read` / `get_content` yield
+    pub open spec fn elems_spec(&self) -> Seq<Out> {
+        match self {
+            ItemContent::Any(v) => v@.map_values(|a: Any| Out::Any(a)),
+            ItemContent::Other(o) => o.elems@,
+        }
+    }
+
+    /// `ItemContent::get_last` (real Any arm: `v.last().map(|a| Out::Any(a.clone()))`)
     pub fn get_last(&self) -> (r: Option<Out>)
-        ensures r == self.last,
+        ensures r == self.last_spec(),
     {
-        self.last
+        match self {
+            ItemContent::Any(v) => if v.len() > 0 { Some(Out::Any(v[v.len() - 1])) } else { None },
+            ItemContent::Other(o) => o.last,
+        }
     }
 
     /// `ItemContent::read`: copies `elems[offset..]` into `buf` as far as both reach; returns the number of elements copied
+    /// (real Any arm: the same loop with `buf[j] = Out::Any(any.clone())`)
     pub fn read(&self, offset: usize, buf: &mut Vec<Out>) -> (n: usize)
         ensures
-            n == (if offset <= self.elems@.len() { if self.elems@.len() - offset <= old(buf)@.len() { self.elems@.len() - offset } else { old(buf)@.len() as int } } else { 0 }),
+            n == (if offset <= self.elems_spec().len() { if self.elems_spec().len() - offset <= old(buf)@.len() { self.elems_spec().len() - offset } else { old(buf)@.len() as int } } else { 0 }),
             final(buf)@.len() == old(buf)@.len(),
-            forall|j: int| 0 <= j < n ==> final(buf)@[j] == self.elems@[offset + j],
+            forall|j: int| 0 <= j < n ==> final(buf)@[j] == self.elems_spec()[offset + j],
             forall|j: int| n <= j < old(buf)@.len() ==> final(buf)@[j] == old(buf)@[j],
     {
         let mut i = offset;
         let mut j = 0;
-        while i < self.elems.len() && j < buf.len()
-            invariant
-                buf@.len() == old(buf)@.len(),
-                i == offset + j,
-                j <= buf@.len(),
-                offset <= self.elems@.len() ==> i <= self.elems@.len(),
-                offset > self.elems@.len() ==> j == 0,
-                forall|k: int| 0 <= k < j ==> buf@[k] == self.elems@[offset + k],
-                forall|k: int| j <= k < old(buf)@.len() ==> buf@[k] == old(buf)@[k],
-            decreases buf@.len() - j,
-        {
-            buf[j] = self.elems[i];
-            i += 1;
-            j += 1;
+        match self {
+            ItemContent::Any(values) => {
+                while i < values.len() && j < buf.len()
+                    invariant
+                        self.elems_spec().len() == values@.len(),
+                        forall|k: int| 0 <= k < values@.len() ==> self.elems_spec()[k] == Out::Any(#[trigger] values@[k]),
+                        buf@.len() == old(buf)@.len(),
+                        i == offset + j,
+                        j <= buf@.len(),
+                        offset <= values@.len() ==> i <= values@.len(),
+                        offset > values@.len() ==> j == 0,
+                        forall|k: int| 0 <= k < j ==> buf@[k] == self.elems_spec()[offset + k],
+                        forall|k: int| j <= k < old(buf)@.len() ==> buf@[k] == old(buf)@[k],
+                    decreases buf@.len() - j,
+                {
+                    buf[j] = Out::Any(values[i]);
+                    i += 1;
+                    j += 1;
+                }
+            },
+            ItemContent::Other(o) => {
+                while i < o.elems.len() && j < buf.len()
+                    invariant
+                        self.elems_spec() == o.elems@,
+                        buf@.len() == old(buf)@.len(),
+                        i == offset + j,
+                        j <= buf@.len(),
+                        offset <= o.elems@.len() ==> i <= o.elems@.len(),
+                        offset > o.elems@.len() ==> j == 0,
+                        forall|k: int| 0 <= k < j ==> buf@[k] == o.elems@[offset + k],
+                        forall|k: int| j <= k < old(buf)@.len() ==> buf@[k] == old(buf)@[k],
+                    decreases buf@.len() - j,
+                {
+                    buf[j] = o.elems[i];
+                    i += 1;
+                    j += 1;
+                }
+            },
         }
         j
     }
@@ -344,7 +470,7 @@ pub open spec fn live_keys(m: Map<Str, ItemPtr>) -> Set<Str> {
 
 /// the entries a reader may report: live keys with the last value of their entry item
 pub open spec fn entries(m: Map<Str, ItemPtr>) -> Map<Str, Out> {
-    Map::new(m.dom().filter(|k: Str| live(m[k]) && m[k].content.last is Some), |k: Str| m[k].content.last.unwrap())
+    Map::new(m.dom().filter(|k: Str| live(m[k]) && m[k].content.last_spec() is Some), |k: Str| m[k].content.last_spec().unwrap())
 }
 
 pub open spec fn lookup<V>(m: Map<Str, V>, k: Str) -> Option<V> {
@@ -354,28 +480,28 @@ pub open spec fn lookup<V>(m: Map<Str, V>, k: Str) -> Option<V> {
 /// well-formedness of the entry items: every live entry item carries a value (content kind Any / JSON (non-empty), Binary,
 /// Doc, Embed, String, Type).  NOT guaranteed by the code, see FINDING B.
 pub open spec fn entries_wf(m: Map<Str, ItemPtr>) -> bool {
-    forall|k: Str| #[trigger] live_keys(m).contains(k) ==> m[k].content.last is Some
+    forall|k: Str| #[trigger] live_keys(m).contains(k) ==> m[k].content.last_spec() is Some
 }
 
 /// what `Map::insert` creates with the crate's own Prelim types: exactly one value
 pub open spec fn single_value(p: &Item) -> bool {
-    p.len == 1 && p.content.elems@.len() == 1 && p.content.last == Some(p.content.elems@[0])
+    p.len == 1 && p.content.elems_spec().len() == 1 && p.content.last_spec() == Some(p.content.elems_spec()[0])
 }
 
 /// every content kind but String: the last value is the last element
 pub open spec fn seq_kind(p: &Item) -> bool {
-    p.content.last == (if p.content.elems@.len() > 0 { Some(p.content.elems@.last()) } else { None })
+    p.content.last_spec() == (if p.content.elems_spec().len() > 0 { Some(p.content.elems_spec().last()) } else { None })
 }
 
 /// the block length is the number of elements the content yields (false for Format, Deleted and for String content with
 /// astral characters)
 pub open spec fn item_len_ok(p: &Item) -> bool {
-    p.len as int == p.content.elems@.len()
+    p.len as int == p.content.elems_spec().len()
 }
 
 /// the value `to_json` serializes for a live entry item
 pub open spec fn value_or_null(p: &Item) -> Out {
-    match p.content.last {
+    match p.content.last_spec() {
         Some(v) => v,
         None => Out::Any(Any::Null),
     }
@@ -400,12 +526,12 @@ pub proof fn lemma_wf_agree(m: Map<Str, ItemPtr>)
     assert(json_spec(m).dom() =~= live_keys(m));
     if entries_wf(m) {
         assert forall|k: Str| live_keys(m).contains(k) implies entries(m).dom().contains(k) by {
-            assert(m[k].content.last is Some);
+            assert(m[k].content.last_spec() is Some);
         }
         assert(entries(m).dom() =~= live_keys(m));
     }
     if entries(m).dom() == live_keys(m) {
-        assert forall|k: Str| #[trigger] live_keys(m).contains(k) implies m[k].content.last is Some by {
+        assert forall|k: Str| #[trigger] live_keys(m).contains(k) implies m[k].content.last_spec() is Some by {
             assert(entries(m).dom().contains(k));
         }
     }
@@ -683,12 +809,12 @@ pub open spec fn f_key() -> spec_fn(Pair) -> Option<Str> {
 
 /// Values: all elements of the content of the live pairs
 pub open spec fn f_vals() -> spec_fn(Pair) -> Option<Seq<Out>> {
-    |x: Pair| if live(x.1) { Some(x.1.content.elems@) } else { None }
+    |x: Pair| if live(x.1) { Some(x.1.content.elems_spec()) } else { None }
 }
 
 /// MapIter: (key, last value) of the live pairs that have a last value
 pub open spec fn f_kv() -> spec_fn(Pair) -> Option<(Str, Out)> {
-    |x: Pair| if live(x.1) && x.1.content.last is Some { Some((x.0, x.1.content.last.unwrap())) } else { None }
+    |x: Pair| if live(x.1) && x.1.content.last_spec() is Some { Some((x.0, x.1.content.last_spec().unwrap())) } else { None }
 }
 
 /// the (key, value) pairs behind the references a `hash_map::Iter` hands out
@@ -818,14 +944,14 @@ pub proof fn lemma_pick_same_len(s: Seq<Pair>)
     ensures
         pick(s, f_live()).len() == pick(s, f_key()).len(),
         pick(s, f_key()) == pick(s, f_live()).map_values(|x: Pair| x.0),
-        pick(s, f_vals()) == pick(s, f_live()).map_values(|x: Pair| x.1.content.elems@),
+        pick(s, f_vals()) == pick(s, f_live()).map_values(|x: Pair| x.1.content.elems_spec()),
     decreases s.len(),
 {
     if s.len() > 0 {
         lemma_pick_same_len(s.drop_first());
     }
     assert(pick(s, f_key()) =~= pick(s, f_live()).map_values(|x: Pair| x.0));
-    assert(pick(s, f_vals()) =~= pick(s, f_live()).map_values(|x: Pair| x.1.content.elems@));
+    assert(pick(s, f_vals()) =~= pick(s, f_live()).map_values(|x: Pair| x.1.content.elems_spec()));
 }
 
 /// MapIter, over its whole life: exactly the pairs of entries(m), each once -- i.e. exactly what `get` returns
@@ -874,7 +1000,7 @@ pub proof fn theorem_values(s: Seq<Pair>, m: Map<Str, ItemPtr>)
             let k = #[trigger] pick(s, f_key())[i];
             let vs = pick(s, f_vals())[i];
             &&& live_keys(m).contains(k)
-            &&& vs == m[k].content.elems@
+            &&& vs == m[k].content.elems_spec()
             &&& seq_kind(m[k]) ==> lookup(entries(m), k) == (if vs.len() > 0 { Some(vs.last()) } else { None })
             &&& single_value(m[k]) ==> lookup(entries(m), k) == Some(vs[0]) && vs.len() == 1
         },
@@ -886,7 +1012,7 @@ pub proof fn theorem_values(s: Seq<Pair>, m: Map<Str, ItemPtr>)
         let k = #[trigger] pick(s, f_key())[i];
         let vs = pick(s, f_vals())[i];
         &&& live_keys(m).contains(k)
-        &&& vs == m[k].content.elems@
+        &&& vs == m[k].content.elems_spec()
         &&& seq_kind(m[k]) ==> lookup(entries(m), k) == (if vs.len() > 0 { Some(vs.last()) } else { None })
         &&& single_value(m[k]) ==> lookup(entries(m), k) == Some(vs[0]) && vs.len() == 1
     }) by {
@@ -901,13 +1027,13 @@ pub proof fn lemma_values_vs_get_string(m: Map<Str, ItemPtr>, k: Str, whole: Out
     requires
         m.contains_key(k),
         live(m[k]),
-        m[k].content.last == Some(whole),
-        m[k].content.elems@ == seq![a, b],
+        m[k].content.last_spec() == Some(whole),
+        m[k].content.elems_spec() == seq![a, b],
         whole != b,
     ensures
         lookup(entries(m), k) == Some(whole),
         !seq_kind(m[k]),
-        m[k].content.elems@.last() != whole,
+        m[k].content.elems_spec().last() != whole,
 {
     assert(seq![a, b].last() == b);
 }
@@ -954,8 +1080,8 @@ pub proof fn theorem_read_paths_agree(s: Seq<Pair>, m: Map<Str, ItemPtr>)
                 assert(kv.contains((kv[i].0, kv[i].1)));
             }
             if live_keys(m).contains(k) {
-                assert(m[k].content.last is Some);
-                let v = m[k].content.last.unwrap();
+                assert(m[k].content.last_spec() is Some);
+                let v = m[k].content.last_spec().unwrap();
                 assert(lookup(entries(m), k) == Some(v));
                 assert(kv.contains((k, v)));
                 let i = choose|i: int| 0 <= i < kv.len() && kv[i] == (k, v);
@@ -993,6 +1119,14 @@ pub proof fn corollary_iter_drained(states: Seq<Seq<Pair>>, outs: Seq<(Str, Out)
 {
     lemma_drain(states, outs, f_kv());
     theorem_iter(states[0], m);
+}
+
+/// `Map::get_as` as a function of what `get` returns
+pub open spec fn get_as_spec<V: DeserializeOwned>(got: Option<Out>) -> Result<V, Error> {
+    V::from_any_spec(json_of(match got {
+        Some(v) => v,
+        None => Out::Any(Any::Null),
+    }))
 }
 
 // ---- MapIter relative to Entries
@@ -1279,7 +1413,31 @@ impl Branch {
             r == lookup(entries(self.map@), *key),
             r is Some ==> live_keys(self.map@).contains(*key),
     @*/
+
+    /*@extract yrs/src/branch.rs | impl Branch | fn entries | label=branch_entries
+    @ret r
+    @sig
+        ensures
+            r.wf(),
+            enumerates(r.pending(), self.map@),
+    @*/
 }
+
+/// what `get` returns for a key whose entry item is `p`
+pub open spec fn item_value(p: &Item) -> Option<Out> {
+    if live(p) { p.content.last_spec() } else { None }
+}
+
+// the value `Branch::remove` (= `Map::remove`, `Xml::remove_attribute`) REPORTS: the statement `let prev = ..` (the rest of the
+// function deletes the item: a writer, not here).  STEP level.
+/*@extract yrs/src/branch.rs | impl Branch | region remove | stmt=stmt:let prev | stmtnth=1 | label=remove_read_step | tail=prev
+@header
+    pub fn branch_remove_read(item: ItemPtr) -> (r: Option<Out>)
+@sig
+    ensures
+        // exactly what `get` returned for that key just before
+        r == item_value(item),
+@*/
 
 // ---------------------------------------------------------------------------------------------
 // the real code, part 3: the iterators of map.rs
@@ -1370,7 +1528,7 @@ impl<'a, B, T: ReadTxn> Values<'a, B, T> {
         }
     @before 1 `stmt:call Some`
         proof {
-            assert(item_len_ok(item) ==> values@ =~= item.content.elems@);
+            assert(item_len_ok(item) ==> values@ =~= item.content.elems_spec());
         }
     @*/
 }
@@ -1455,7 +1613,7 @@ pub trait IntoIterRest {
 @sig
     ensures
         // a live pair is yielded with its last value; a live pair without one is skipped
-        live(item) ==> r == (match item.content.last { Some(v) => Some((key, v)), None => old(rest).result() }),
+        live(item) ==> r == (match item.content.last_spec() { Some(v) => Some((key, v)), None => old(rest).result() }),
         // a tombstone is skipped (finding A, repaired)
         !live(item) ==> r == old(rest).result(),
 @*/
@@ -1482,6 +1640,30 @@ pub trait IntoIterRest {
     ensures
         // a live entry item contributes key -> JSON image of its last value (null if it has none), a tombstone nothing
         final(res)@ == (if live(*item) { old(res)@.insert(*key, json_of(value_or_null(*item))) } else { old(res)@ }),
+@*/
+
+// ---------------------------------------------------------------------------------------------
+// the real code, part 4c: the READ side of `Map::get_or_init` (the statement before `V::default_prelim()` / `self.insert`, which
+// are the write side): `return value` is spelled `return Some(value)`, falling through is `None` (SUB / tail, logged).  STEP level.
+// ---------------------------------------------------------------------------------------------
+/// what `get_or_init` finds: the conversion of exactly get(k)'s value, if there is one and it converts
+pub open spec fn found_spec<V: TryFromOut>(got: Option<Out>) -> Option<V> {
+    match got {
+        Some(v) => match V::try_from_spec(v) {
+            Ok(x) => Some(x),
+            Err(_) => None,
+        },
+        None => None,
+    }
+}
+
+/*@extract yrs/src/types/map.rs | trait Map: AsRef<Branch> + Sized | region get_or_init | stmt=stmt:if | stmtnth=1 | label=get_or_init_read_step | tail=None | rules=SUB(from=return value;;to=return Some(value))
+@header
+    pub fn map_get_or_init_read<T: ReadTxn, V: TryFromOut>(branch: &Branch, txn: &T, key: Str) -> (r: Option<V>)
+@sig
+    ensures
+        // a tombstone or a missing key is "not found" (then the caller re-initializes the entry)
+        r == found_spec::<V>(lookup(entries(branch.map@), key)),
 @*/
 
 // ---------------------------------------------------------------------------------------------
@@ -1562,6 +1744,19 @@ impl MapRef {
             r is Some ==> live_keys(self.entries_map()).contains(*key),
     @*/
 
+    /*@extract yrs/src/types/map.rs | trait Map: AsRef<Branch> + Sized | fn get_as | rules=SUB(from=BranchPtr::from(self.as_ref());;to=self.as_ref())
+    @ret r
+    @sig
+        ensures
+            // determined by `get`: the deserialization of the JSON image of exactly get(k)'s value, of JSON null if get(k) is None
+            r == get_as_spec::<V>(lookup(entries(self.entries_map()), *key)),
+            lookup(entries(self.entries_map()), *key) is None ==> r == V::from_any_spec(Any::Null),
+    @start
+        proof {
+            lemma_json_of_any(Any::Null);
+        }
+    @*/
+
     // OBSERVATION B: a live entry item without a last value (Format content; not creatable through the Map API) is reported as
     // present here (and by len / keys / to_json) but `get` returns None and `iter` skips it (see the header).
     /*@extract yrs/src/types/map.rs | trait Map: AsRef<Branch> + Sized | fn contains_key
@@ -1601,6 +1796,116 @@ impl MapRef {
             }
         }
     @*/
+}
+
+// ---------------------------------------------------------------------------------------------
+// the real code, part 6: the ATTRIBUTE readers of XML nodes (yrs/src/types/xml.rs): trait `Xml` default methods `get_attribute`,
+// `attributes` (implementors XmlElementRef, XmlTextRef; emitted as inherent methods of XmlElementRef), `Attributes::{new, next}`.
+// They read the same `branch.map` through the same `Branch::get` / `Entries`.
+// ---------------------------------------------------------------------------------------------
+/*@extract yrs/src/types/xml.rs | - | struct XmlElementRef @*/
+
+/*@extract yrs/src/types/xml.rs | - | struct Attributes @*/
+
+impl<'a, B, T: ReadTxn> Attributes<'a, B, T> {
+    pub closed spec fn wf(&self) -> bool {
+        self.0.wf()
+    }
+
+    #[verifier::prophetic]
+    pub closed spec fn pending(&self) -> Seq<Pair> {
+        self.0.pending()
+    }
+
+    pub closed spec fn measure(&self) -> nat {
+        self.0.measure()
+    }
+
+    /*@extract yrs/src/types/xml.rs | impl<'a, B, T> Attributes<'a, B, T> where B: Borrow<T>, T: ReadTxn, | fn new | label=attributes_new
+    @ret r
+    @sig
+        ensures
+            r.wf(),
+            enumerates(r.pending(), branch.map@),
+    @*/
+
+    /*@extract yrs/src/types/xml.rs | impl<'a, B, T> Iterator for Attributes<'a, B, T> where B: Borrow<T>, T: ReadTxn, | fn next | label=attributes_next | rules=SUB(from=Option<Self::Item>;;to=Option<(&'a Str, Out)>)
+    @ret r
+    @sig
+        requires
+            old(self).wf(),
+        ensures
+            final(self).wf(),
+            // the SAME contract as MapIter::next: (key, last value) of the first live pair that has a last value
+            r is Some <==> first_some(old(self).pending(), f_kv()) < old(self).pending().len(),
+            r is Some ==> Some((*r.unwrap().0, r.unwrap().1)) == f_kv()(old(self).pending()[first_some(old(self).pending(), f_kv())]),
+            final(self).pending() =~= (if r is Some { old(self).pending().skip(first_some(old(self).pending(), f_kv()) + 1) } else { Seq::empty() }),
+            r is Some ==> final(self).measure() < old(self).measure(),
+        decreases old(self).measure(),
+    @start
+        let ghost vx_s = self.pending();
+        proof {
+            lemma_kv_after_live(vx_s);
+        }
+    @*/
+}
+
+impl XmlElementRef {
+    /// the map component (the attributes) of the branch behind the reference
+    pub closed spec fn entries_map(&self) -> Map<Str, ItemPtr> {
+        self.0.map@
+    }
+
+    /*@extract yrs/src/types/xml.rs | impl AsRef<Branch> for XmlElementRef | fn as_ref | label=xml_as_ref
+    @ret r
+    @sig
+        ensures
+            r.map@ == self.entries_map(),
+    @*/
+
+    /*@extract yrs/src/types/xml.rs | trait Xml: AsRef<Branch> | fn get_attribute
+    @ret r
+    @sig
+        ensures
+            // the same function of the branch state as Map::get
+            r == lookup(entries(self.entries_map()), *attr_name),
+            r is Some ==> live_keys(self.entries_map()).contains(*attr_name),
+    @*/
+
+    /*@extract yrs/src/types/xml.rs | trait Xml: AsRef<Branch> | fn attributes
+    @ret r
+    @sig
+        ensures
+            r.wf(),
+            enumerates(r.pending(), self.entries_map()),
+    @*/
+}
+
+/// THE DERIVED READERS, for EVERY branch state `m` (sibling of `theorem_read_paths_agree`):
+///   get_as(k) is a function of get(k) alone (two states in which get(k) agrees give the same get_as(k); a key that get does not
+///   find deserializes JSON null); get_or_init finds exactly get(k) (converted); remove reports exactly get(k);
+///   get_attribute(k) IS get(k); attributes(), drained, yields exactly the (k, v) with get_attribute(k) == Some(v), no key twice
+///   -- the same pairs as Map::iter.
+pub proof fn theorem_derived_readers_agree<V: DeserializeOwned, W: TryFromOut>(
+    s: Seq<Pair>, m: Map<Str, ItemPtr>, m2: Map<Str, ItemPtr>, k: Str, states: Seq<Seq<Pair>>, outs: Seq<(Str, Out)>)
+    requires
+        enumerates(s, m),
+        states[0] == s,
+        is_trace(states, outs, f_kv()),
+    ensures
+        // get_as / get_or_init / remove: functions of get(k)
+        lookup(entries(m), k) == lookup(entries(m2), k) ==> get_as_spec::<V>(lookup(entries(m), k)) == get_as_spec::<V>(lookup(entries(m2), k)),
+        !live_keys(m).contains(k) ==> get_as_spec::<V>(lookup(entries(m), k)) == V::from_any_spec(Any::Null)
+            && found_spec::<W>(lookup(entries(m), k)) == None::<W>,
+        m.contains_key(k) ==> item_value(m[k]) == lookup(entries(m), k),
+        // attributes() == iter(): exactly what get_attribute / get return
+        outs == pick(s, f_kv()),
+        forall|a: Str, v: Out| #[trigger] outs.contains((a, v)) <==> lookup(entries(m), a) == Some(v),
+        forall|i: int, j: int| 0 <= i < j < outs.len() ==> (#[trigger] outs[i]).0 != (#[trigger] outs[j]).0,
+{
+    lemma_json_of_any(Any::Null);
+    lemma_drain(states, outs, f_kv());
+    corollary_iter_drained(states, outs, m);
 }
 
 } // verus!
